@@ -96,6 +96,8 @@ struct GenCfg {
     bool faults = true;
     bool violations = true;
     bool allow_stdio = true;
+    bool adjacent = false;      // C12: neighbouring tasks' first destinations share a machine word
+    int force_edge = 0;         // (set per op by gen_plan)
     bool force_violation = false; // every generated op carries a documented violation (C13 tier 3)
     bool alloc_focus = false; // C20: only emit ops from the site-directed generators
 };
